@@ -283,6 +283,7 @@ let run_case (toks : string list) : string option =
     Some (match build_config (fun s -> List.mem s valid) a f p (zi pid) with
           | COk c -> render_cfg c (zi pid)
           | CErr e -> "err:" ^ err_kind e)
+  | "e2e" :: cfg :: _
   | "c16grid" :: cfg :: _ ->
     let c = parse_scfg cfg in
     Some (if builder_accepts c then "accept" else "reject")
